@@ -117,6 +117,26 @@ Return(t) ==
   /\ res'  = [res EXCEPT ![t] = NoRes]
   /\ UNCHANGED <<vars, todo>>
 
+(* What a call that changes nothing returns when it takes effect now - the read arms of KVStore!Do restated as *)
+(* a state function (KVStoreConcMC checks ReadResAgrees: every Lin step of such a call produces exactly this). *)
+(* Used by the trace specification to decide cheaply WHEN such a step is worth taking.                         *)
+ReadOnlyOps == {"Get", "Has", "Iterate", "IterateKeys", "Flush"}
+ReadRes(s) ==
+  CASE s.op = "Get" -> IF closed THEN [err |-> "ErrStoreClosed", val |-> <<>>]
+                       ELSE IF (R(s) \o s.k) \in DOMAIN store THEN [err |-> "ok", val |-> store[R(s) \o s.k]]
+                       ELSE [err |-> "ErrKeyNotFound", val |-> <<>>]
+    [] s.op = "Has" -> IF closed THEN [err |-> "ErrStoreClosed", has |-> FALSE]
+                       ELSE [err |-> "ok", has |-> (R(s) \o s.k) \in DOMAIN store]
+    [] s.op = "Iterate" -> IF closed THEN [err |-> "ErrStoreClosed", kv |-> <<>>]
+                           ELSE [err |-> "ok", kv |-> Take(Listing(store, R(s), s.k, s.dir), s.n)]
+    [] s.op = "IterateKeys" -> IF closed THEN [err |-> "ErrStoreClosed", keys |-> <<>>]
+                               ELSE [err |-> "ok", keys |-> KeysOf(Take(Listing(store, R(s), s.k, s.dir), s.n))]
+    [] s.op = "Flush" -> IF closed THEN Err("ErrStoreClosed") ELSE Err("ok")
+(* the result thread t's pending step would produce now, if that step changes nothing (else NoRes) *)
+QuietRes(t) == IF pc[t] = "flushing" THEN ReadRes([op |-> "Flush"])
+               ELSE IF pc[t] = "invoked" /\ call[t].op \in ReadOnlyOps THEN ReadRes(call[t])
+               ELSE NoRes
+
 ConcTypeOK == /\ \A t \in Threads : pc[t] \in {"idle", "invoked", "writing", "flushing", "lin"}
               /\ \A t \in Threads : pc[t] = "idle" <=> call[t] = NoCall
               /\ \A t \in Threads : pc[t] = "lin" <=> res[t] # NoRes
